@@ -471,6 +471,17 @@ def itemType : Item → UInt8
   | .rep _ _ => Rtosc.ArgVal.tyA
   | .range _ _ s => s.type
 
+/-- The manual calls the last value of `a b ... c` "c"; the code keeps (start, step, count) and
+    computes it.  For 'f' / 'd' the two differ within the tolerance, so the manual does not say
+    which one is the left neighbour "a" of a range of the same type that follows directly: such a
+    text denotes nothing here.  (`b`: left-hand side of the float range, `r`: what follows it) -/
+def floatRangeBlocks (opn : Bool) (b : Cell) (r : List SVal) : Bool :=
+  (match b with | .flt _ => true | .dbl _ => true | _ => false) &&
+  (match r with
+   | .range b' _ :: _ => b'.cell.type == b.type
+   | [.val t] => opn && t.cell.type == b.type
+   | _ => false)
+
 /-- the element type of an array with these elements: the type of the last one, `' '` for none -/
 def lastItemTy (its : List Item) : UInt8 :=
   match its.getLast? with
@@ -502,6 +513,7 @@ def denoteElems (opn : Bool) (prev : Option Cell) : List SVal → Option (List I
     match x with
     | .range b c =>
       if r.isEmpty ∧ opn then none
+      else if floatRangeBlocks opn b.cell r then none
       else if isNumTy b.cell ∧ b.cell.type = c.cell.type ∧ !numEq b.cell c.cell then
         match rangeStep prev b.cell (some c.cell) with
         | some (some d) =>
